@@ -11,8 +11,11 @@ import gen as G
 LEVEL = "proof"
 TRUSTED = ["model: coq/Model/Slice.v (searchsorted as counts, get_range, get_closest, trial_rows, padding, trial_count_rows) over Model/Count.v; theorems: Proofs/SliceProofs.v",
            "np.searchsorted's contract on a sorted array (left = #{t < v}, right = #{t <= v}) is NumPy's"]
-ASSUMPTIONS = ["series have a positive span (a zero-span series has an empty default time support - recorded as a known finding for get())",
-               "warp_tensor for timestamps is PARTIAL: proved/checked when num_bins divides the trial duration in ticks (otherwise the bin size is rounded to 1 ns)"]
+ASSUMPTIONS = ["a series whose timestamps all coincide (zero span) and that has no explicit time support gets an EMPTY default support: recorded as a known finding for get() / "
+               "Ts.get(start); such series are generated (and pass) with an explicit support and in the trial tensors",
+               "warp_tensor for timestamps: PROVED equal to num_bins equal bins when num_bins divides the trial duration in ticks and refuted otherwise (the bin size is rounded "
+               "to 1 ns and accumulated); CHECKED against exact rational equal half-open bins in both cases (a sample at the trial end is in no bin, as in count)",
+               "time support unchanged: proved for a non-empty selection, refuted for an empty one (the constructor drops an explicit support of an empty series); checked for every window"]
 
 U = 1953125
 
@@ -20,6 +23,150 @@ U = 1953125
 def _nap():
     import pynapple as nap
     return nap
+
+
+def _sup(x):
+    return [(C.to_ns(s), C.to_ns(e)) for s, e in x.time_support.values]
+
+
+def _vals(n, k, dtype=float):
+    """(n, k) values: cell c of row i = i + 100*(c+1): every cell identifies its sample"""
+    return (np.arange(n)[:, None] + 100 * (np.arange(k)[None, :] + 1)).astype(dtype)
+
+
+def _eqnan(a, b):
+    a, b = np.asarray(a, dtype=float), np.asarray(b, dtype=float)
+    return a.shape == b.shape and np.array_equal(a, b, equal_nan=True)
+
+
+def _pad(rows, w, pad, align_end):
+    return [([pad] * (w - len(r)) + list(r)) if align_end else (list(r) + [pad] * (w - len(r))) for r in rows]
+
+
+UNITS = (("s", 1e9), ("ms", 1e6), ("us", 1e3))
+
+
+def class_case(nap, ts_all, a, b, supkind):
+    """get / get_slice / get(start) on Ts, Tsd, TsdFrame, TsdTensor and TsGroup, default / explicit / multi-interval support, 3 units.
+    Returns the list of violations."""
+    V = []
+    lo, hi = min(ts_all), max(ts_all)
+    if supkind == "default":
+        sup, supo = None, None
+    elif supkind == "wide":
+        sup = [(lo - 3 * U, hi + 5 * U)]
+    else:   # two intervals cutting the lattice (samples in the gap are not part of the series)
+        sup = [(lo - 3 * U, lo + 2 * U), (lo + 5 * U, hi + 5 * U)] if hi - lo >= 6 * U else [(lo - 3 * U, lo - U), (lo - U // 2, hi + 5 * U)]
+    if sup is not None:
+        supo = nap.IntervalSet(G.arr([u for u, _ in sup]), G.arr([w for _, w in sup]))
+    ts = [t for t in ts_all if sup is None or G.mem(t, sup)]
+    if not ts:
+        return None
+    n = len(ts)
+    vals = {"Ts": None, "Tsd": _vals(n, 1, np.int64)[:, 0], "TsdFrame": _vals(n, 2), "TsdTensor": _vals(n, 4).reshape(n, 2, 2)}
+    objs = {"Ts": nap.Ts(G.arr(ts_all), time_support=supo), "Tsd": nap.Tsd(G.arr(ts), vals["Tsd"], time_support=supo),
+            "TsdFrame": nap.TsdFrame(G.arr(ts), vals["TsdFrame"], time_support=supo, columns=["a", "b"]),
+            "TsdTensor": nap.TsdTensor(G.arr(ts), vals["TsdTensor"], time_support=supo)}
+    # the finding recorded for get(): all timestamps coincide AND the support is the (then empty) default one
+    zs = bool(ts[0] == ts[-1] and sup is None)
+    exp = [i for i, t in enumerate(ts) if a <= t <= b]
+    dmin = min(abs(t - a) for t in ts)
+    near = [i for i, t in enumerate(ts) if abs(t - a) == dmin]
+    base = {"ts": ts_all, "a": a, "b": b, "support": sup, "supkind": supkind}
+    for cls, x in objs.items():
+        before = _sup(x)
+        for units, f in UNITS:
+            kk = {"cls": cls, "units": units, "zero_span_series": zs}
+            inp = dict(base, cls=cls, units=units)
+            try:
+                r = x.get(a / f, b / f, time_units=units)
+                sl = x.get_slice(a / f, b / f, time_unit=units)
+                c = x.get(a / f, time_units=units)
+                cs = x.get_slice(a / f, time_unit=units)
+            except Exception as ex:
+                V.append({"key": dict(kk, op="get", part="exception"), "what": "get/get_slice raised %s: %s" % (type(ex).__name__, str(ex)[:100]), "input": inp})
+                continue
+            if np.arange(n)[sl].tolist() != exp:
+                V.append({"key": dict(kk, op="get_slice", part="samples"), "what": "get_slice does not select exactly the samples with start <= t <= end", "input": inp,
+                          "impl": np.arange(n)[sl].tolist(), "expected": exp})
+            if type(r) is not type(x) or [C.to_ns(t) for t in r.t] != [ts[i] for i in exp] or (cls != "Ts" and not np.array_equal(r.values, vals[cls][exp])):
+                V.append({"key": dict(kk, op="get", part="samples"), "what": "get(start, end) does not return exactly the samples (time and row) with start <= t <= end",
+                          "input": inp, "impl": [C.to_ns(t) for t in r.t], "expected": [ts[i] for i in exp]})
+            elif _sup(r) != before:
+                V.append({"key": dict(kk, op="get", part="support", empty_result=not exp), "what": "get(start, end) changed the time support", "input": inp,
+                          "impl": _sup(r), "expected": before})
+            if np.arange(n)[cs].tolist() not in [[i] for i in near]:
+                V.append({"key": dict(kk, op="get_slice(start)", part="nearest"), "what": "get_slice(start) does not select a sample nearest to start", "input": inp})
+            if cls == "Ts":
+                okc = type(c) is type(x) and [C.to_ns(t) for t in c.t] in [[ts[i]] for i in near]
+            else:
+                okc = any(np.array_equal(np.asarray(c), vals[cls][i]) for i in near)
+            if not okc:
+                V.append({"key": dict(kk, op="get(start)", part="nearest"), "what": "get(start) does not return a sample nearest to start", "input": inp})
+    # TsGroup: member-wise, every member
+    mem = {2: ts_all, 7: ts_all[:-1] if len(ts_all) > 2 and ts_all[0] != ts_all[-2] else ts_all, 5: ts_all[1:] or ts_all}
+    gsup = supo if supo is not None else nap.IntervalSet(-1.0, 1.0)
+    gs = sup if sup is not None else [(-10**9, 10**9)]
+    g = nap.TsGroup({k: nap.Ts(G.arr(m)) for k, m in mem.items()}, time_support=gsup)
+    for units, f in UNITS:
+        inp = dict(base, cls="TsGroup", units=units)
+        try:
+            rg = g.get(a / f, b / f, time_units=units)
+            cg = g.get(a / f, time_units=units)
+        except Exception as ex:
+            V.append({"key": {"op": "TsGroup.get", "part": "exception", "units": units}, "what": "TsGroup.get raised %s: %s" % (type(ex).__name__, str(ex)[:100]), "input": inp})
+            continue
+        if list(rg.keys()) != sorted(mem) or list(cg.keys()) != sorted(mem) or _sup(rg) != gs or _sup(cg) != gs:
+            V.append({"key": {"op": "TsGroup.get", "part": "keys_support", "units": units}, "what": "TsGroup.get lost members or changed the group's support", "input": inp})
+            continue
+        for k, m in mem.items():
+            mm = [t for t in m if G.mem(t, gs)]
+            e_ = [t for t in mm if a <= t <= b]
+            if [C.to_ns(t) for t in rg[k].t] != e_:
+                V.append({"key": {"op": "TsGroup.get", "part": "samples", "units": units}, "what": "TsGroup.get is not member-wise get", "input": dict(inp, member=k)})
+            elif _sup(rg[k]) != _sup(g[k]):
+                V.append({"key": {"op": "TsGroup.get", "part": "member_support", "units": units, "empty_result": not e_},
+                          "what": "TsGroup.get changed a member's time support", "input": dict(inp, member=k), "impl": _sup(rg[k]), "expected": _sup(g[k])})
+            if mm:
+                d_ = min(abs(t - a) for t in mm)
+                if [C.to_ns(t) for t in cg[k].t] not in [[t] for t in mm if abs(t - a) == d_]:
+                    V.append({"key": {"op": "TsGroup.get(start)", "part": "nearest", "units": units}, "what": "TsGroup.get(start) is not the member's nearest sample",
+                              "input": dict(inp, member=k)})
+    return V
+
+
+def warp_expect(ts, ep, nb):
+    """num_bins EQUAL bins per trial, half-open as count's bins are: bin j of trial [s, e] = {t : s + j(e-s)/nb <= t < s + (j+1)(e-s)/nb}, exact rationals"""
+    return [[sum(1 for t in ts if s <= t <= e and j * (e - s) <= nb * (t - s) < (j + 1) * (e - s)) for j in range(nb)] for s, e in ep]
+
+
+def warp_case(nap, ts, ts2, ep, nb, kind):
+    """warp_tensor on a Ts and on a TsGroup of two members; returns the list of violations"""
+    V = []
+    epo = nap.IntervalSet(G.arr([s for s, _ in ep]), G.arr([e for _, e in ep]))
+    inp = {"ts": ts, "ts2": ts2, "ep": ep, "num_bins": nb}
+    lo, hi = min(ts + ts2 + [s for s, _ in ep]), max(ts + ts2 + [e for _, e in ep])
+    wide = nap.IntervalSet(lo / 1e9 - 1.0, hi / 1e9 + 1.0)
+    p = nap.Ts(G.arr(ts), time_support=wide)
+    g = nap.TsGroup({1: nap.Ts(G.arr(ts)), 3: nap.Ts(G.arr(ts2))}, time_support=wide)
+    e1, e2 = warp_expect(ts, ep, nb), warp_expect(ts2, ep, nb)
+    for what, obj, expw in (("Ts", p, e1), ("TsGroup", g, [e1, e2])):
+        # bin_is_whole_ns: every trial whose row is wrong (every trial, for an exception) has a duration that num_bins divides in ns
+        try:
+            W = np.asarray(nap.warp_tensor(obj, epo, nb))
+        except Exception as ex:
+            V.append({"key": {"op": "warp_tensor", "part": "exception", "input_kind": what, "lattice": kind, "bin_is_whole_ns": all((e - s) % nb == 0 for s, e in ep)},
+                      "what": "warp_tensor raised %s: %s" % (type(ex).__name__, str(ex)[:100]), "input": inp})
+            continue
+        E = np.asarray(expw, dtype=float)
+        if W.shape != E.shape:
+            V.append({"key": {"op": "warp_tensor", "part": "shape", "input_kind": what, "lattice": kind}, "what": "warp_tensor shape is not (members,) trials x num_bins", "input": inp})
+            continue
+        bad = sorted({int(i) for i in np.argwhere(W != E)[:, -2]})
+        if bad:
+            V.append({"key": {"op": "warp_tensor", "part": "counts", "input_kind": what, "lattice": kind, "bin_is_whole_ns": any((ep[i][1] - ep[i][0]) % nb == 0 for i in bad)},
+                      "what": "warp_tensor(timestamps) is not counting in num_bins equal bins per trial", "input": inp, "impl": W.tolist(), "expected": E.tolist(), "trials": bad})
+    return V
 
 
 def run(res, tier, seed):
@@ -30,9 +177,13 @@ def run(res, tier, seed):
     half = [i * U for i in range(-2, 2 * N + 2)]
     nmax = 4 if tier == "quick" else 5
     res.rule = ("get/get_slice/get(start): ALL sorted multisets of <=%d timestamps on a 6-point dyadic lattice (duplicates incl., at window edges) x ALL windows (a <= b) on the half-lattice "
-                "incl. before/after/inside/covering the data, a == b, edges on samples [complete]; zero-span series counted separately; 3 units; TsGroup member-wise; trial tensors / "
-                "trial_count / build_tensor / warp_tensor over trial sets with unequal durations and empty trials. non-trivial = window cuts the data (0 < selected < n)" % nmax)
-    res.exhaustive = True
+                "incl. before/after/inside/covering the data, a == b, edges on samples [complete in thorough, seeded subsample in quick] on an int Tsd with its default support: samples, "
+                "result timestamps and the time support (ALWAYS compared, also for an empty result); zero-span series counted separately. Random cases: Ts/Tsd/TsdFrame/TsdTensor/TsGroup x "
+                "{default, explicit, two-interval} support x 3 units for get, get_slice, get(start), get_slice(start): every row, every group member, supports of result and members. "
+                "Trial tensors: Tsd float/int, TsdFrame, TsdTensor (zero-span series included), 3 padding values incl. NaN, build_tensor for Tsd-likes, Ts and TsGroup, trial_count in 3 units, "
+                "every TsGroup member; warp_tensor (Ts and TsGroup) with num_bins in 1..7,30 dividing or NOT the trial durations, samples on the exact bin edges, dyadic and millisecond "
+                "lattices, against exact rational equal bins. non-trivial = window cuts the data (0 < selected < n)" % nmax)
+    res.exhaustive = tier == "thorough"
     rng = random.Random(seed * 5 + 1)
     tss = [ts for ts in G.sorted_multisets(pts, nmax) if len(ts) >= 1]
     wins = [(a, b) for a in half for b in half if a <= b]
@@ -51,8 +202,9 @@ def run(res, tier, seed):
         key = tuple(ts)
         zero_span = ts[0] == ts[-1]
         if key not in objs:
-            objs[key] = nap.Tsd(G.arr(ts), np.arange(len(ts)) + 100)
-        x = objs[key]
+            o_ = nap.Tsd(G.arr(ts), np.arange(len(ts)) + 100)
+            objs[key] = (o_, _sup(o_))
+        x, before = objs[key]
         inp = {"ts": ts, "a": a, "b": b}
         exp = [i for i, t in enumerate(ts) if a <= t <= b]
         res.case((key, a, b), nontrivial=0 < len(exp) < len(ts))
@@ -66,13 +218,15 @@ def run(res, tier, seed):
             res.violations.append({"key": dict(kk, op="get", part="exception"), "what": "get raised " + type(ex).__name__, "input": inp})
             continue
         if got_sl != exp:
-            res.violations.append({"key": dict(kk, op="get_slice"), "what": "get_slice does not select exactly the samples with start <= t <= end", "input": inp,
+            res.violations.append({"key": dict(kk, op="get_slice", part="samples"), "what": "get_slice does not select exactly the samples with start <= t <= end", "input": inp,
                                    "impl": got_sl, "expected": exp})
-        elif got != exp:
-            res.violations.append({"key": dict(kk, op="get"), "what": "get(start, end) does not return exactly the samples with start <= t <= end", "input": inp,
+        elif got != exp or [C.to_ns(t) for t in r.t] != [ts[i] for i in exp]:
+            res.violations.append({"key": dict(kk, op="get", part="samples"), "what": "get(start, end) does not return exactly the samples with start <= t <= end", "input": inp,
                                    "impl": got, "expected": exp})
-        elif not zero_span and len(got) and [(C.to_ns(s), C.to_ns(e)) for s, e in r.time_support.values] != [(ts[0], ts[-1])]:
-            res.violations.append({"key": dict(kk, op="get", part="support"), "what": "get changed the time support", "input": inp})
+        elif _sup(r) != before:
+            # "time support unchanged": compared for EVERY window, also when nothing is selected
+            res.violations.append({"key": dict(kk, op="get", part="support", empty_result=not exp, cls="Tsd"), "what": "get(start, end) changed the time support", "input": inp,
+                                   "impl": _sup(r), "expected": before})
         m = [int(v) for v in out[2 * n].split()]
         if (sl.start, sl.stop) != (m[0], m[1]) and not (sl.stop <= sl.start and m[1] <= m[0]):
             res.disagreements.append({"op": "get_slice", "input": inp, "impl": [sl.start, sl.stop], "model": m})
@@ -82,40 +236,31 @@ def run(res, tier, seed):
         cm = int(out[2 * n + 1])
         ci = int(c) - 100
         if abs(ts[ci] - a) != dmin:
-            res.violations.append({"key": dict(kk, op="get(start)"), "what": "get(start) does not return a sample nearest to start", "input": inp, "impl": ci})
+            res.violations.append({"key": dict(kk, op="get(start)", part="nearest"), "what": "get(start) does not return a sample nearest to start", "input": inp, "impl": ci})
         if ci != cm:
             res.disagreements.append({"op": "get_closest", "input": inp, "impl": ci, "model": cm})
         if n % 3001 == 0:
             res.sample({"ts": ts, "window": [a, b], "slice": [sl.start, sl.stop], "closest_index": ci})
-    # units + TsGroup member-wise
-    for _ in range(150 if tier == "quick" else 1500):
+    # every class, 3 kinds of support, 3 units, TsGroup member-wise
+    for n in range(120 if tier == "quick" else 1500):
         ts = rng.choice(tss)
-        if ts[0] == ts[-1]:
-            continue
         a, b = rng.choice(wins)
-        x = nap.Tsd(G.arr(ts), np.arange(len(ts)) + 100)
-        exp = [i for i, t in enumerate(ts) if a <= t <= b]
+        supkind = ("default", "wide", "multi")[n % 3]
+        v = class_case(nap, ts, a, b, supkind)
+        if v is None:
+            res.count("class_case_empty_series_skipped")
+            continue
         res.evaluations += 1
-        for units, f in (("ms", 1e6), ("us", 1e3)):
-            r = x.get(a / f, b / f, time_units=units)
-            if [int(v) - 100 for v in r.values] != exp:
-                res.violations.append({"key": {"op": "get", "units": units}, "what": "get in %s differs" % units, "input": {"ts": ts, "a": a, "b": b}})
-        g = nap.TsGroup({2: nap.Ts(G.arr(ts)), 7: nap.Ts(G.arr(ts[:-1] if len(ts) > 2 and ts[0] != ts[-2] else ts))}, time_support=nap.IntervalSet(-1.0, 1.0))
-        rg = g.get(a / 1e9, b / 1e9)
-        if [C.to_ns(t) for t in rg[2].t] != [ts[i] for i in exp] or list(rg.keys()) != [2, 7]:
-            res.violations.append({"key": {"op": "TsGroup.get"}, "what": "TsGroup.get is not member-wise get", "input": {"ts": ts, "a": a, "b": b}})
-        for units, f in (("ms", 1e6), ("us", 1e3)):
-            rgu = g.get(a / f, b / f, time_units=units)
-            if [C.to_ns(t) for t in rgu[2].t] != [ts[i] for i in exp]:
-                res.violations.append({"key": {"op": "TsGroup.get", "units": units}, "what": "TsGroup.get in %s is not member-wise get" % units,
-                                       "input": {"ts": ts, "a": a, "b": b}})
+        res.count("class_cases support=" + supkind)
+        if ts[0] == ts[-1]:
+            res.count("class_cases zero_span")
+        res.violations.extend(v)
     # trial tensors
     trial_sets = [e for e in G.canonical_isets(G.lattice(7, step=2 * U), 3) if e]
+    pads = [-1.0, float("nan"), 7.5]
     tlines, tcases = [], []
-    for _ in range(400 if tier == "quick" else 4000):
+    for _ in range(300 if tier == "quick" else 4000):
         ts = rng.choice(tss)
-        if ts[0] == ts[-1]:
-            continue
         ep = rng.choice(trial_sets)
         align_end = rng.random() < 0.5
         b = rng.choice([2 * U, 4 * U, 6 * U])
@@ -124,68 +269,102 @@ def run(res, tier, seed):
         tlines.append("trial_count\t%s\t%s\t%d" % (C.fmt_ints(ts), C.fmt_iset(ep), b))
     tout = C.run_model(tlines) if tlines else []
     for n, (ts, ep, align_end, b) in enumerate(tcases):
-        inp = {"ts": ts, "ep": ep, "align": "end" if align_end else "start", "bin": b}
+        al = "end" if align_end else "start"
+        pad = pads[n % 3]
+        inp = {"ts": ts, "ep": ep, "align": al, "bin": b, "padding_value": pad}
         epo = nap.IntervalSet(G.arr([s for s, _ in ep]), G.arr([e for _, e in ep]))
-        x = nap.Tsd(G.arr(ts), np.arange(len(ts)) + 100.0)
+        nn = len(ts)
         res.evaluations += 1
         res.count("trial_cases")
+        if ts[0] == ts[-1]:
+            res.count("trial_zero_span_series")
         if any(not any(s <= t <= e for t in ts) for s, e in ep):
             res.count("trial_with_no_sample")
-        try:
-            T = x.to_trial_tensor(epo, align="end" if align_end else "start", padding_value=-1.0)
-        except Exception as ex:
-            res.violations.append({"key": {"op": "to_trial_tensor", "part": "exception", "align": inp["align"]}, "what": "to_trial_tensor raised " + type(ex).__name__, "input": inp})
-            continue
-        rows = [[i + 100 for i, t in enumerate(ts) if s <= t <= e] for s, e in ep]
-        w = max(len(r) for r in rows)
-        exp = [([-1] * (w - len(r)) + r) if align_end else (r + [-1] * (w - len(r))) for r in rows]
-        got = [[int(v) for v in row] for row in T]
-        if got != exp:
-            res.violations.append({"key": {"op": "to_trial_tensor", "align": inp["align"]}, "what": "trial tensor row is not that trial's samples, aligned and padded", "input": inp,
-                                   "impl": got, "expected": exp})
+        idx = [[i for i, t in enumerate(ts) if s <= t <= e] for s, e in ep]
+        w = max(len(r) for r in idx)
+        srcs = {"Tsd_float": (1, float, lambda v: nap.Tsd(G.arr(ts), v[:, 0])), "Tsd_int": (1, np.int64, lambda v: nap.Tsd(G.arr(ts), v[:, 0])),
+                "TsdFrame": (2, float, lambda v: nap.TsdFrame(G.arr(ts), v)), "TsdTensor": (4, float, lambda v: nap.TsdTensor(G.arr(ts), v.reshape(nn, 2, 2)))}
+        for cls, (kc, dt, mk) in srcs.items():
+            vals = _vals(nn, kc, dt)
+            x = mk(vals)
+            # expected: cell c -> trials x w (time last), the class's trailing shape first
+            E = np.array([_pad([[float(vals[i, c]) for i in r] for r in idx], w, pad, align_end) for c in range(kc)], dtype=float).reshape(x.values.shape[1:] + (len(ep), w))
+            for fn, call in (("to_trial_tensor", lambda: x.to_trial_tensor(epo, align=al, padding_value=pad)),
+                             ("build_tensor", lambda: nap.build_tensor(x, epo, align=al, padding_value=pad))):
+                try:
+                    T = call()
+                except Exception as ex:
+                    res.violations.append({"key": {"op": fn, "part": "exception", "align": al, "cls": cls}, "what": "%s raised %s: %s" % (fn, type(ex).__name__, str(ex)[:100]),
+                                           "input": inp})
+                    continue
+                if not _eqnan(T, E):
+                    res.violations.append({"key": {"op": fn, "part": "rows", "align": al, "cls": cls}, "what": "trial tensor row is not that trial's samples, aligned and padded",
+                                           "input": inp, "impl": np.asarray(T).tolist(), "expected": E.tolist()})
+        exp = _pad([[i + 100 for i in r] for r in idx], w, -1, align_end)
         mod = [[int(v) for v in r.split()] for r in tout[2 * n].split("|")] if tout[2 * n] != "" else [[] for _ in ep]
         if mod != exp and not (w == 0):
-            res.disagreements.append({"op": "to_trial_tensor", "input": inp, "impl": got, "model": mod})
-        if nap.build_tensor(x, epo, align="end" if align_end else "start", padding_value=-1.0).tolist() != T.tolist():
-            res.violations.append({"key": {"op": "build_tensor"}, "what": "build_tensor(Tsd) != to_trial_tensor", "input": inp})
-        # trial_count = per-trial binned counts
-        p = nap.Ts(G.arr(ts))
-        try:
-            TC = p.trial_count(epo, b / 1e9, align="end" if align_end else "start", padding_value=-1.0)
-        except Exception as ex:
-            res.violations.append({"key": {"op": "trial_count", "part": "exception", "align": inp["align"]}, "what": "trial_count raised " + type(ex).__name__, "input": inp})
-            continue
-        crow = []
-        for s, e in ep:
-            row, l = [], s
-            while 2 * l + b <= 2 * e:
-                row.append(sum(1 for t in ts if s <= t <= e and l <= t < l + b))
-                l += b
-            crow.append(row)
-        w = max(len(r) for r in crow)
-        expc = [([-1] * (w - len(r)) + r) if align_end else (r + [-1] * (w - len(r))) for r in crow]
-        gotc = [[int(v) for v in row] for row in TC]
-        if w > 0 and gotc != expc:
-            res.violations.append({"key": {"op": "trial_count", "align": inp["align"]}, "what": "trial_count row is not that trial's binned count", "input": inp, "impl": gotc, "expected": expc})
+            res.disagreements.append({"op": "to_trial_tensor", "input": inp, "model": mod, "expected": exp})
+        # trial_count = per-trial binned counts (count's bins: half-open, kept when the bin centre lies in the trial)
+        mem = {1: ts, 3: ts[::2], 8: ts[1:] or ts}
+
+        def crows(tt):
+            out_ = []
+            for s, e in ep:
+                row, l = [], s
+                while 2 * l + b <= 2 * e:
+                    row.append(sum(1 for t in tt if s <= t <= e and l <= t < l + b))
+                    l += b
+                out_.append(row)
+            return out_
+        crow = crows(ts)
+        wc = max(len(r) for r in crow)
+        EC = {k: np.array(_pad(crows(m), wc, pad, align_end), dtype=float).reshape(len(ep), wc) for k, m in mem.items()}
         modc = [[int(v) for v in r.split()] for r in tout[2 * n + 1].split("|")]
         if modc != crow:
             res.disagreements.append({"op": "trial_count(model vs statement)", "input": inp, "model": modc, "expected": crow})
-        g = nap.TsGroup({1: p, 3: nap.Ts(G.arr(ts[::2]))}, time_support=nap.IntervalSet(-1.0, 1.0))
-        if w > 0:
-            GC = g.trial_count(epo, b / 1e9, align="end" if align_end else "start", padding_value=-1.0)
-            if [[int(v) for v in row] for row in GC[0]] != expc:
-                res.violations.append({"key": {"op": "TsGroup.trial_count"}, "what": "group trial_count differs from member trial_count", "input": inp})
-        # warp_tensor on timestamps: num_bins equal bins per trial (num_bins dividing every trial duration in ticks)
-        nb = 2
-        if all(((e - s) % nb) == 0 for s, e in ep):
-            W = nap.warp_tensor(p, epo, nb)
-            expw = []
-            for s, e in ep:
-                bb = (e - s) // nb
-                expw.append([sum(1 for t in ts if s <= t <= e and s + j * bb <= t < s + (j + 1) * bb) for j in range(nb)])
-            if [[int(v) for v in row] for row in W] != expw:
-                res.violations.append({"key": {"op": "warp_tensor"}, "what": "warp_tensor(Ts) is not counting in num_bins equal bins per trial", "input": inp,
-                                       "impl": W.tolist(), "expected": expw})
+        p = nap.Ts(G.arr(ts))
+        g = nap.TsGroup({k: nap.Ts(G.arr(m)) for k, m in mem.items()}, time_support=nap.IntervalSet(-1.0, 1.0))
+        units, f = UNITS[n % 3]
+        for fn, call, E in (("trial_count", lambda: p.trial_count(epo, b / f, align=al, padding_value=pad, time_unit=units), EC[1]),
+                            ("build_tensor(Ts)", lambda: nap.build_tensor(p, epo, b / f, align=al, padding_value=pad, time_unit=units), EC[1]),
+                            ("TsGroup.trial_count", lambda: g.trial_count(epo, b / f, align=al, padding_value=pad, time_unit=units), np.array([EC[k] for k in sorted(mem)])),
+                            ("build_tensor(TsGroup)", lambda: nap.build_tensor(g, epo, b / f, align=al, padding_value=pad, time_unit=units), np.array([EC[k] for k in sorted(mem)]))):
+            try:
+                TC = call()
+            except Exception as ex:
+                res.violations.append({"key": {"op": fn, "part": "exception", "align": al, "units": units, "no_bin_fits": wc == 0},
+                                       "what": "%s raised %s: %s" % (fn, type(ex).__name__, str(ex)[:100]), "input": dict(inp, units=units)})
+                continue
+            if not _eqnan(TC, E):
+                res.violations.append({"key": {"op": fn, "part": "rows", "align": al, "units": units, "no_bin_fits": wc == 0},
+                                       "what": "trial_count row is not that trial's (member's) binned count, aligned and padded", "input": dict(inp, units=units),
+                                       "impl": np.asarray(TC).tolist(), "expected": E.tolist()})
+        # warp_tensor on timestamps: num_bins EQUAL bins per trial, whether or not num_bins divides the durations
+        if n % 2 == 0:
+            nb = (1, 2, 3, 4, 5, 6, 7)[(n // 2) % 7]
+            res.count("warp_cases dyadic")
+            if not all((e - s) % nb == 0 for s, e in ep):
+                res.count("warp_cases num_bins does not divide")
+            res.violations.extend(warp_case(nap, ts, ts[::2], ep, nb, "dyadic"))
+    # warp_tensor on a millisecond lattice: samples on the exact bin edges (when whole ns), at the trial ends, and anywhere
+    for n in range(150 if tier == "quick" else 2000):
+        nb = rng.choice([2, 3, 5, 6, 7, 10, 30])
+        ep, s = [], rng.randrange(0, 50) * 10**6
+        for _ in range(rng.randint(1, 3)):
+            d = rng.randrange(1, 400) * (10**6 if rng.random() < 0.7 else 10**5) * (nb if rng.random() < 0.4 else 1)
+            ep.append((s, s + d))
+            s += d + rng.randrange(1, 50) * 10**6
+        tt = set()
+        for s_, e_ in ep:
+            edges = [s_ + j * (e_ - s_) // nb for j in range(nb + 1) if (j * (e_ - s_)) % nb == 0]
+            tt.update(rng.sample(edges, min(len(edges), 3)))
+            tt.update(s_ + rng.randrange(0, (e_ - s_) // 10**5 + 1) * 10**5 for _ in range(3))
+        ts = sorted(tt)
+        res.evaluations += 1
+        res.count("warp_cases ms")
+        if not all((e - s) % nb == 0 for s, e in ep):
+            res.count("warp_cases num_bins does not divide")
+        res.violations.extend(warp_case(nap, ts, ts[1::2] or ts, ep, nb, "ms"))
 
 
 def search(res, seed):
@@ -200,12 +379,23 @@ def replay(payload):
     v = payload.get("violation") or (payload.get("disagreements") or [{}])[0]
     inp = v.get("input", {})
     ts = inp.get("ts", [0, 1])
+
+    def fresh(vs):
+        vs = [w for w in vs if C.match_known("C08", w) is None]
+        for w in vs[:5]:
+            print("violation:", w["key"], w["what"], {k: w[k] for k in ("impl", "expected") if k in w})
+        return 1 if vs else 0
+    if "num_bins" in inp:
+        return fresh(warp_case(nap, ts, inp.get("ts2", ts), [tuple(x) for x in inp["ep"]], inp["num_bins"], (v.get("key") or {}).get("lattice", "replay")))
+    if "supkind" in inp:
+        return fresh(class_case(nap, ts, inp["a"], inp["b"], inp["supkind"]) or [])
     x = nap.Tsd(G.arr(ts), np.arange(len(ts)) + 100)
     if "a" in inp:
         a, b = inp["a"], inp["b"]
-        got = [int(q) - 100 for q in x.get(a / 1e9, b / 1e9).values]
+        r = x.get(a / 1e9, b / 1e9)
+        got = [int(q) - 100 for q in r.values]
         exp = [i for i, t in enumerate(ts) if a <= t <= b]
-        print("ts", ts, "window", a, b, "impl", got, "expected", exp)
-        return 0 if got == exp else 1
+        print("ts", ts, "window", a, b, "impl", got, "expected", exp, "support before", _sup(x), "after", _sup(r))
+        return 0 if got == exp and _sup(r) == _sup(x) else 1
     print("trial replay input:", inp)
     return 1
